@@ -1134,3 +1134,152 @@ func UpperBound(fn *ssa.Function, v ssa.Value, at *ssa.BasicBlock) int {
 
 // Tainted reports whether v derives from packet bytes.
 func Tainted(v ssa.Value) bool { return tainted(v, 0) }
+
+// WindowReslice: x[:h] (or x[lo:h]) where x is a fixed-length window a[c1:c2]
+// of the input and h is a packet-derived value that can exceed the window's
+// length: the result is checked against the window's capacity only, i.e.
+// against however much of the packet happens to follow.
+type WindowReslice struct {
+	At     *ssa.Slice
+	Window int
+	UB     int
+}
+
+func WindowReslices(fn *ssa.Function, root *RootInfo) []WindowReslice {
+	if len(fn.Blocks) == 0 {
+		return nil
+	}
+	fi := infoFor(fn, root)
+	live := LiveBlocks(fn)
+	var out []WindowReslice
+	for _, b := range fn.Blocks {
+		if !live[b] {
+			continue
+		}
+		for _, ins := range b.Instrs {
+			sl, ok := ins.(*ssa.Slice)
+			if !ok || sl.High == nil {
+				continue
+			}
+			if _, isK := constInt(sl.High); isK {
+				continue
+			}
+			// x: a value stored once in a field and loaded, or directly a slice
+			x := sl.X
+			if sv, _, ok := singleFieldStore(fn, x); ok {
+				x = sv
+			} else if sv, ok := precedingStoreInBlock(x); ok {
+				x = sv
+			}
+			for {
+				if ct, ok := x.(*ssa.ChangeType); ok {
+					x = ct.X
+					continue
+				}
+				break
+			}
+			win, ok := x.(*ssa.Slice)
+			if !ok || win.Low == nil || win.High == nil {
+				continue
+			}
+			lo, ok1 := constInt(win.Low)
+			hi, ok2 := constInt(win.High)
+			if !ok1 || !ok2 || hi <= lo {
+				continue
+			}
+			// the window must come from the decoder's input (any byte-slice parameter chain)
+			if _, isParam := chainOf(win.X).root.(*ssa.Parameter); !isParam {
+				continue
+			}
+			h := sl.High
+			if !taintedFwd(fn, h, 0) {
+				continue
+			}
+			ub := fi.intUB(h, b, 0)
+			if fu := fi.fieldUB(h, b); fu >= 0 && (ub < 0 || fu < ub) {
+				ub = fu
+			}
+			if ub < 0 {
+				continue
+			}
+			if ub <= hi-lo {
+				continue
+			}
+			// a dominating comparison of len(...) with an expression built from the same value
+			// bounds it by the packet length: no panic (the window is then merely a lower bound)
+			guarded := false
+			hv := stripConv(h)
+			var mentions func(v ssa.Value, d int) bool
+			mentions = func(v ssa.Value, d int) bool {
+				if d > 6 {
+					return false
+				}
+				v = stripConv(v)
+				if v == hv || sameSym(v, hv, 0) {
+					return true
+				}
+				if bo, ok := v.(*ssa.BinOp); ok {
+					return mentions(bo.X, d+1) || mentions(bo.Y, d+1)
+				}
+				return false
+			}
+			isLen := func(v ssa.Value) bool {
+				c, ok := stripConv(v).(*ssa.Call)
+				if !ok {
+					return false
+				}
+				bi, ok := c.Call.Value.(*ssa.Builtin)
+				return ok && (bi.Name() == "len" || bi.Name() == "cap")
+			}
+			for _, dc := range domConds(b) {
+				bo, ok := dc[0].(*ssa.BinOp)
+				if !ok {
+					continue
+				}
+				if (isLen(bo.X) && mentions(bo.Y, 0)) || (isLen(bo.Y) && mentions(bo.X, 0)) {
+					guarded = true
+				}
+			}
+			if !guarded {
+				out = append(out, WindowReslice{At: sl, Window: hi - lo, UB: ub})
+			}
+		}
+	}
+	return out
+}
+
+// precedingStoreInBlock: v is a load of a struct field and an earlier
+// instruction of the same block stores to that field (same base value) with
+// no call in between: the load yields the stored value.
+func precedingStoreInBlock(v ssa.Value) (ssa.Value, bool) {
+	ld, ok := v.(*ssa.UnOp)
+	if !ok || ld.Op != token.MUL {
+		return nil, false
+	}
+	fa, ok := ld.X.(*ssa.FieldAddr)
+	if !ok {
+		return nil, false
+	}
+	b := ld.Block()
+	idx := -1
+	for i, ins := range b.Instrs {
+		if ins == ssa.Instruction(ld) {
+			idx = i
+		}
+	}
+	for i := idx - 1; i >= 0; i-- {
+		switch x := b.Instrs[i].(type) {
+		case *ssa.Store:
+			if f2, ok := x.Addr.(*ssa.FieldAddr); ok && f2.Field == fa.Field && f2.X == fa.X {
+				return x.Val, true
+			}
+		case *ssa.Call:
+			if _, isBuiltin := x.Call.Value.(*ssa.Builtin); !isBuiltin {
+				if f := x.Call.StaticCallee(); f == nil || f.Pkg == nil || f.Pkg.Pkg.Path() != "encoding/binary" {
+					return nil, false
+				}
+			}
+		}
+	}
+	return nil, false
+}
